@@ -176,6 +176,12 @@ func genRecScenario(r *verifsim.Run, focus string) *aScenario {
 	if !c.NoWindow && r.Chance(1, 2) {
 		pJump = r.OneOf(5, 30)
 	}
+	// the camera's own uptime clock (telemetry) need not advance by 1/fps per delivered frame: frames get
+	// lost on the way, the camera stalls. Recording lengths are counted in frames.
+	pUp := 0
+	if r.Chance(1, 4) {
+		pUp = r.OneOf(10, 40, 150)
+	}
 	// fault stratum: write/stop errors on the motion sink (separate from the fault-free stratum)
 	if r.Chance(1, 4) {
 		for i, n := 0, r.Range(1, 6); i < n; i++ {
@@ -234,6 +240,9 @@ func genRecScenario(r *verifsim.Run, focus string) *aScenario {
 				default:
 					e.Dt = time.Duration(r.Range(0, 120)) * time.Second
 				}
+			}
+			if pUp > 0 && r.Chance(pUp, 1000) {
+				e.UpJumpMs = uint32(r.OneOf(300, 3500, 10000, 100000))
 			}
 			if pBad > 0 && r.Chance(pBad, 1000) {
 				e.Kind = 'B'
